@@ -1,3 +1,741 @@
-/- C11 property theorems (not written yet) -/
+/-
+C11 — conditional and range responses are sound.
+Property theorems only (helper lemmas live in Lemmas/Conditional.lean).
+-/
+import WzVerif.Lemmas.Conditional
+import WzVerif.Gen.RangeTbl
 namespace Wz.Props.C11
+open Wz Wz.Cond
+
+/-! ## tables regenerated from the live code -/
+
+def cube : List (Option Int × Option Int × Option Int) :=
+  Gen.RangeTbl.vals.flatMap fun a => Gen.RangeTbl.vals.flatMap fun b => Gen.RangeTbl.vals.map fun c => (a, b, c)
+
+/-- The live `is_byte_range_valid` and the model agree on the whole cube
+`{None, -1, …, 6}³` (729 rows; `decide` over the regenerated table — a flipped inequality or sign
+in the function changes a row). -/
+theorem byte_range_valid_table_agrees :
+    (cube.map fun (a, b, c) => isByteRangeValid a b c) = Gen.RangeTbl.byteRangeValid := by
+  decide +kernel
+
+/-- The live `Range.range_for_length` and the model agree for every `(begin, end)` pair with
+components in `-1..6` / `None` that the `Range` constructor accepts and every length `None, 0..6`. -/
+theorem range_for_length_table_agrees :
+    Gen.RangeTbl.rangeForLength.all
+      (fun (row : (Int × Option Int) × Option Int × Option (Int × Int)) =>
+        rangeForLength ⟨bytesUnit, [row.1]⟩ row.2.1 == row.2.2) = true := by
+  decide +kernel
+
+/-! ## the modification check -/
+
+/-- "not modified by date": both dates present and `last_modified`, floored to whole seconds, is not
+later than the client's date -/
+def dateNotModified (since : Option Int) (lm : Option (Int × Nat)) : Prop :=
+  ∃ ms l, since = some ms ∧ lm = some l ∧ l.1 ≤ ms
+
+/-- the documented condition for "not modified" (no `If-Range` evaluation): when the response
+carries an entity tag `e`, `If-Match` (strong comparison, honouring `*`) decides if present, else
+`If-None-Match` (weak comparison) decides if present — taking precedence over the date; otherwise
+`If-Modified-Since` at one-second resolution. -/
+def NotModifiedSpec (r : CondReq) (etag : Option Str) (lm : Option (Int × Nat)) : Prop :=
+  match etag.bind unquoteEtag with
+  | some (e, _) =>
+    if (parseEtags r.im).truthy then ¬ (parseEtags r.im).contains e = true
+    else if (parseEtags r.inm).truthy then (parseEtags r.inm).containsWeak e = true
+    else dateNotModified r.ims lm
+  | none => dateNotModified r.ims lm
+
+theorem dateNotModified_iff (since : Option Int) (lm : Option (Int × Nat)) :
+    dateUnmodified since (lm.map (·.1)) = true ↔ dateNotModified since lm := by
+  unfold dateNotModified dateUnmodified
+  cases since <;> cases lm <;> simp
+
+/-- `not_modified_sound` and `not_modified_complete` in one statement: `is_resource_modified`
+(with `ignore_if_range=True`, as `make_conditional` calls it for the 304/412 decision) answers
+"not modified" exactly under the documented condition. -/
+theorem not_modified_iff (r : CondReq) (etag : Option Str) (lm : Option (Int × Nat)) :
+    isResourceModified r etag lm true = false ↔ NotModifiedSpec r etag lm := by
+  have hd := dateNotModified_iff r.ims lm
+  unfold isResourceModified NotModifiedSpec
+  simp only [Bool.not_true, Bool.false_and, Bool.false_eq_true, ↓reduceIte, Bool.not_eq_eq_eq_not]
+  cases etag with
+  | none => simpa using hd
+  | some et =>
+    simp only [Option.bind_some]
+    cases hu : unquoteEtag et with
+    | none => simpa using hd
+    | some p =>
+      obtain ⟨e, w⟩ := p
+      simp only
+      cases him : (parseEtags r.im).truthy <;> cases hinm : (parseEtags r.inm).truthy <;>
+        simp [hd]
+
+example : NotModifiedSpec { inm := some "W/\"abc\"".toList } (some "\"abc\"".toList) none :=
+  (not_modified_iff _ _ _).mp (by decide)
+
+/-- One-second resolution: the sub-second part of `last_modified` never influences the answer. -/
+theorem microseconds_irrelevant (r : CondReq) (etag : Option Str) (s : Int) (m1 m2 : Nat)
+    (ign : Bool) :
+    isResourceModified r etag (some (s, m1)) ign = isResourceModified r etag (some (s, m2)) ign := by
+  simp [isResourceModified]
+
+/-- `If-None-Match` takes precedence over `If-Modified-Since` when the response has an ETag: with a
+non-empty `If-None-Match` (and no `If-Match`) the dates do not matter. -/
+theorem if_none_match_precedence (r : CondReq) (et e : Str) (w : Bool)
+    (hu : unquoteEtag et = some (e, w)) (hinm : (parseEtags r.inm).truthy = true)
+    (him : (parseEtags r.im).truthy = false) (lm : Option (Int × Nat)) :
+    isResourceModified r (some et) lm true = !(parseEtags r.inm).containsWeak e := by
+  simp [isResourceModified, hu, hinm, him]
+
+example : unquoteEtag "\"abc\"".toList = some ("abc".toList, false) ∧
+    (parseEtags (some "\"x\", W/\"abc\"".toList)).truthy = true ∧
+    (parseEtags (some "\"x\", W/\"abc\"".toList)).containsWeak "abc".toList = true := by decide
+
+/-- Without an ETag on the response the date alone decides, at one-second resolution and with `≤`. -/
+theorem date_only (r : CondReq) (ms s : Int) (m : Nat) (h : r.ims = some ms) :
+    isResourceModified r none (some (s, m)) true = false ↔ s ≤ ms := by
+  simp [isResourceModified, dateUnmodified, h]
+
+/-- `If-Match: *` admits every current entity tag (repaired F11b): no 412. -/
+theorem if_match_star_admits (r : CondReq) (et e : Str) (w : Bool)
+    (hu : unquoteEtag et = some (e, w)) (him : r.im = some ['*']) (lm : Option (Int × Nat)) :
+    isResourceModified r (some et) lm true = true := by
+  have hp : parseEtags (some ['*']) = ⟨[], [], true⟩ := by decide
+  simp [isResourceModified, hu, him, hp, ETags.truthy, ETags.contains]
+
+/-- the full-strength reading of "a 304 always when the validators match", on header text:
+`If-None-Match: "tag"` against a response with `ETag: "tag"` is not modified, for every tag -/
+def InmSelfMatch : Prop :=
+  ∀ tag : Str, CleanTag tag →
+    isResourceModified { inm := some (quoteTag tag) } (some (quoteTag tag)) none true = false
+
+/-- Known finding F11e: false for the empty entity tag `""` — `parse_etags` stores `None` for it
+(`elif quoted:` is false for the empty string), which equals no tag. -/
+theorem inm_self_match_full_false : ¬ InmSelfMatch := by
+  intro h
+  have := h [] (by intro c hc; simp at hc)
+  revert this
+  decide
+
+/-- `_partial`: for every non-empty tag (free of `"` and line feeds) the header text
+`If-None-Match: "tag"` matches the response's `ETag: "tag"`, whatever the dates say.
+Excluded: exactly the empty tag (F11e). -/
+theorem inm_self_match_partial (tag : Str) (hne : tag ≠ []) (hc : CleanTag tag)
+    (ims : Option Int) (lm : Option (Int × Nat)) :
+    isResourceModified { inm := some (quoteTag tag), ims := ims } (some (quoteTag tag)) lm true = false := by
+  rw [if_none_match_precedence _ (quoteTag tag) tag false (unquoteEtag_quoted tag)]
+  · simp [parseEtags_quoted tag hne hc, ETags.containsWeak, ETags.contains]
+  · simp [parseEtags_quoted tag hne hc, ETags.truthy]
+  · simp [parseEtags, ETags.empty, ETags.truthy]
+
+example : CleanTag "abc".toList ∧ "abc".toList ≠ [] := by
+  refine ⟨?_, by decide⟩
+  intro c hc
+  have : c = 'a' ∨ c = 'b' ∨ c = 'c' := by simpa using hc
+  rcases this with rfl | rfl | rfl <;> decide
+
+/-- `If-Range` with an entity tag (and a `Range` header, `ignore_if_range=False`): the range request
+is processable exactly when the tag — weakness dropped — is the response's tag; dates and the other
+validators are not consulted. -/
+theorem if_range_etag (r : CondReq) (et e ie v : Str) (w w' : Bool)
+    (hr : r.range.isSome = true) (hv : r.ifRange = some v) (hvne : v ≠ [])
+    (hd : r.ifRangeDate = none) (hiv : unquoteEtag v = some (ie, w'))
+    (hu : unquoteEtag et = some (e, w)) (lm : Option (Int × Nat)) :
+    isResourceModified r (some et) lm false = !(parseEtags (some ie)).contains e := by
+  have hve : v.isEmpty = false := by
+    cases v with
+    | nil => exact absurd rfl hvne
+    | cons _ _ => rfl
+  simp [isResourceModified, hr, parseIfRange, hv, hve, hd, hiv, hu]
+
+example : unquoteEtag "W/\"abc\"".toList = some ("abc".toList, true) ∧
+    (parseEtags (some "abc".toList)).contains "abc".toList = true := by decide
+
+/-- `If-Range` with a date: the date replaces `If-Modified-Since` (same `≤`, same one-second
+resolution) when the response has no ETag. -/
+theorem if_range_date (r : CondReq) (v : Str) (d s : Int) (m : Nat)
+    (hr : r.range.isSome = true) (hv : r.ifRange = some v) (hvne : v ≠ [])
+    (hd : r.ifRangeDate = some d) :
+    isResourceModified r none (some (s, m)) false = false ↔ s ≤ d := by
+  have hve : v.isEmpty = false := by
+    cases v with
+    | nil => exact absurd rfl hvne
+    | cons _ _ => rfl
+  simp [isResourceModified, hr, parseIfRange, hv, hve, hd, dateUnmodified]
+
+/-- An `If-Range` header without a `Range` header is ignored. -/
+theorem if_range_without_range_ignored (r : CondReq) (etag : Option Str) (lm : Option (Int × Nat))
+    (hr : r.range = none) :
+    isResourceModified r etag lm false = isResourceModified r etag lm true := by
+  simp [isResourceModified, hr]
+
+/-! ## status decision of make_conditional -/
+
+/-- A 412 is produced only for GET/HEAD, only when an `If-Match` header with at least one tag was
+sent, and — when the response carries an ETag — only when `If-Match` does not admit it (strong
+comparison, `*` admits everything). -/
+theorem status_412_only_if (method : Str) (q : CondReq) (r : RespIn) (cl : Option Int) (ar : Bool)
+    (o : RangeOutcome) (h : makeConditionalStatus method q r cl ar = some (412, o)) :
+    (parseEtags q.im).truthy = true ∧
+    ∀ e w, r.etag.bind unquoteEtag = some (e, w) → (parseEtags q.im).contains e = false := by
+  unfold makeConditionalStatus at h
+  split at h
+  · split at h
+    · cases h
+    · simp at h
+    · split at h
+      · rename_i hnm
+        have hnm' : isResourceModified q r.etag (lmOf r) true = false := by simpa using hnm
+        simp only [Option.some.injEq, Prod.mk.injEq] at h
+        have him : (parseEtags q.im).truthy = true := by
+          by_cases hc : (parseEtags q.im).truthy = true
+          · exact hc
+          · simp [hc] at h
+        refine ⟨him, ?_⟩
+        intro e w he
+        have := (not_modified_iff q r.etag (lmOf r)).mp hnm'
+        unfold NotModifiedSpec at this
+        rw [he] at this
+        simp only [him, ↓reduceIte] at this
+        simpa using this
+      · simp at h
+  · simp at h
+
+example : makeConditionalStatus "GET".toList { im := some "\"b\"".toList } { etag := some "\"a\"".toList }
+    none false = some (412, .notRange) := by decide
+
+/-- A 304 is produced only for GET/HEAD, only without `If-Match` tags, and only under the documented
+not-modified condition. -/
+theorem status_304_sound (method : Str) (q : CondReq) (r : RespIn) (cl : Option Int) (ar : Bool)
+    (o : RangeOutcome) (h : makeConditionalStatus method q r cl ar = some (304, o)) :
+    (method = "GET".toList ∨ method = "HEAD".toList) ∧ (parseEtags q.im).truthy = false ∧
+    NotModifiedSpec q r.etag (lmOf r) := by
+  unfold makeConditionalStatus at h
+  split at h
+  · rename_i hm
+    refine ⟨by simpa using hm, ?_⟩
+    split at h
+    · cases h
+    · simp at h
+    · split at h
+      · rename_i hnm
+        have hnm' : isResourceModified q r.etag (lmOf r) true = false := by simpa using hnm
+        simp only [Option.some.injEq, Prod.mk.injEq] at h
+        refine ⟨?_, (not_modified_iff q r.etag (lmOf r)).mp hnm'⟩
+        by_cases hc : (parseEtags q.im).truthy = true
+        · simp [hc] at h
+        · simpa using hc
+      · simp at h
+  · simp at h
+
+/-- the full-strength reading of "a 304 always when the validators match, for GET/HEAD" -/
+def Status304Complete : Prop :=
+  ∀ (method : Str) (q : CondReq) (r : RespIn) (cl : Option Int) (ar : Bool),
+    (method = "GET".toList ∨ method = "HEAD".toList) → (parseEtags q.im).truthy = false →
+    NotModifiedSpec q r.etag (lmOf r) →
+    ∃ o, makeConditionalStatus method q r cl ar = some (304, o)
+
+/-- Known finding F11c: the full-strength form is false — a `Range` header is processed before the
+validators, so a GET with a matching `If-None-Match` and `Range: bytes=0-1` gets 206. -/
+theorem status_304_complete_full_false : ¬ Status304Complete := by
+  intro h
+  obtain ⟨o, ho⟩ := h "GET".toList { range := some "bytes=0-1".toList, inm := some "\"abc\"".toList }
+    { etag := some "\"abc\"".toList } (some 10) true (Or.inl rfl) (by decide)
+    ((not_modified_iff _ _ _).mp (by decide))
+  have hv : makeConditionalStatus "GET".toList
+      { range := some "bytes=0-1".toList, inm := some "\"abc\"".toList }
+      { etag := some "\"abc\"".toList } (some 10) true = some (206, .partialContent 0 2) := by decide
+  rw [hv] at ho
+  simp at ho
+
+/-- `_partial`: whenever the request is not answered as a range request (no `Range` header, ranges
+not accepted, unknown or zero length, failed `If-Range`) the 304 is always produced.
+Excluded: exactly the requests whose `Range` header is processed (F11c). -/
+theorem status_304_complete_partial (method : Str) (q : CondReq) (r : RespIn) (cl : Option Int)
+    (ar : Bool) (hm : method = "GET".toList ∨ method = "HEAD".toList)
+    (him : (parseEtags q.im).truthy = false) (hnm : NotModifiedSpec q r.etag (lmOf r))
+    (hnr : processRangeRequest q r cl ar = .notRange) :
+    makeConditionalStatus method q r cl ar = some (304, .notRange) := by
+  have h1 := (not_modified_iff q r.etag (lmOf r)).mpr hnm
+  have hm' : (method == "GET".toList || method == "HEAD".toList) = true := by
+    rcases hm with rfl | rfl <;> decide
+  unfold makeConditionalStatus
+  have e1 : "GET".toList = ['G', 'E', 'T'] := by decide
+  have e2 : "HEAD".toList = ['H', 'E', 'A', 'D'] := by decide
+  rw [e1, e2] at hm'
+  simp [hm', hnr, h1, him]
+
+example : processRangeRequest { inm := some "\"abc\"".toList } { etag := some "\"abc\"".toList }
+    none false = .notRange := by decide
+
+/-- Other methods are never made conditional. -/
+theorem other_methods_untouched (method : Str) (q : CondReq) (r : RespIn) (cl : Option Int)
+    (ar : Bool) (h1 : method ≠ "GET".toList) (h2 : method ≠ "HEAD".toList) :
+    makeConditionalStatus method q r cl ar = some (200, .notRange) := by
+  have e1 : "GET".toList = ['G', 'E', 'T'] := by decide
+  have e2 : "HEAD".toList = ['H', 'E', 'A', 'D'] := by decide
+  rw [e1] at h1; rw [e2] at h2
+  simp [makeConditionalStatus, h1, h2]
+
+/-! ## ranges -/
+
+/-- `range_for_length` is sound: a result `(a, b)` is a non-empty interval inside the resource, and
+inside the single requested range: `a = begin`, `b = min(end, length)` for `begin-end`;
+`[begin, length)` for an open range; the last `-begin` bytes for a suffix range. -/
+theorem rangeForLength_sound (r : Range) (l a b : Int) (h : rangeForLength r (some l) = some (a, b)) :
+    0 ≤ a ∧ a < b ∧ b ≤ l ∧ r.units = bytesUnit ∧
+    ∃ s e, r.ranges = [(s, e)] ∧
+      (∀ e', e = some e' → a = s ∧ b = min e' l) ∧
+      (e = none → 0 ≤ s → a = s ∧ b = l) ∧
+      (e = none → s < 0 → a = l + s ∧ b = l) := by
+  unfold rangeForLength at h
+  split at h
+  · rename_i l' start end_ hl hr
+    simp only [Option.some.injEq] at hl
+    subst hl
+    split at h
+    · cases h
+    · rename_i hu
+      have hu' : r.units = bytesUnit := by simpa using hu
+      cases end_ with
+      | some e =>
+        simp only [isByteRangeValid] at h
+        by_cases hse : start ≥ e
+        · simp [hse] at h
+        · simp only [hse, ↓reduceIte, Bool.and_eq_true, decide_eq_true_eq] at h
+          split at h
+          · rename_i hv
+            simp only [Option.some.injEq, Prod.mk.injEq] at h
+            obtain ⟨rfl, rfl⟩ := h
+            refine ⟨hv.1, by omega, by omega, hu', start, some e, hr, ?_, by simp, by simp⟩
+            intro e' he'
+            cases he'
+            exact ⟨rfl, rfl⟩
+          · cases h
+      | none =>
+        simp only [isByteRangeValid] at h
+        by_cases hneg : start < 0
+        · simp only [hneg, ↓reduceIte] at h
+          by_cases hse : start + l ≥ l
+          · simp [hse] at h
+          · simp only [hse, ↓reduceIte, Bool.and_eq_true, decide_eq_true_eq] at h
+            split at h
+            · rename_i hv
+              simp only [Option.some.injEq, Prod.mk.injEq] at h
+              obtain ⟨rfl, rfl⟩ := h
+              refine ⟨hv.1, by omega, by omega, hu', start, none, hr, by simp, ?_, ?_⟩
+              · intro _ hs; omega
+              · intro _ _; exact ⟨by omega, by omega⟩
+            · cases h
+        · simp only [hneg, ↓reduceIte] at h
+          by_cases hse : start ≥ l
+          · simp [hse] at h
+          · simp only [hse, ↓reduceIte, Bool.and_eq_true, decide_eq_true_eq] at h
+            split at h
+            · rename_i hv
+              simp only [Option.some.injEq, Prod.mk.injEq] at h
+              obtain ⟨rfl, rfl⟩ := h
+              refine ⟨hv.1, by omega, by omega, hu', start, none, hr, by simp, ?_, ?_⟩
+              · intro _ _; exact ⟨rfl, by omega⟩
+              · intro _ hs; omega
+            · cases h
+  · cases h
+
+example : rangeForLength ⟨bytesUnit, [(-3, none)]⟩ (some 10) = some (7, 10) ∧
+    rangeForLength ⟨bytesUnit, [(2, some 100)]⟩ (some 10) = some (2, 10) := by decide
+
+/-- multi-range and foreign-unit headers are instances of `hbad` -/
+theorem multi_or_foreign_unit_unsatisfiable (pr : Range) (l : Option Int)
+    (h : pr.ranges.length ≠ 1 ∨ pr.units ≠ bytesUnit) : rangeForLength pr l = none := by
+  unfold rangeForLength
+  split
+  · rename_i l' s e _ hr
+    rcases h with h | h
+    · rw [hr] at h; simp at h
+    · simp [h]
+  · rfl
+
+/-! ### Range header text → requested range -/
+
+/-- `bytes=<first>-<last>` (decimal digit strings, first ≤ last) parses to the half-open range
+`[first, last+1)`. -/
+theorem parse_range_first_last (d1 d2 : Str) (h1 : IsDigits d1) (h2 : IsDigits d2)
+    (hle : digitsVal d1 ≤ digitsVal d2) :
+    parseRangeHeader (some (bytesEq ++ (d1 ++ '-' :: d2))) =
+      some ⟨bytesUnit, [((digitsVal d1 : Int), some ((digitsVal d2 : Int) + 1))]⟩ := by
+  have hnc : ∀ c ∈ d1 ++ '-' :: d2, c ≠ ',' := by
+    intro c hc
+    rcases List.mem_append.mp hc with hc | hc
+    · exact digits_no_comma h1.2 c hc
+    · rcases List.mem_cons.mp hc with rfl | hc
+      · decide
+      · exact digits_no_comma h2.2 c hc
+  rw [parseRangeHeader_bytes, splitOnChar_none _ _ _ hnc]
+  simp only [List.reverse_nil, List.nil_append]
+  rw [item_first_last d1 d2 h1 h2 hle 0 (by omega) (by omega)]
+  simp [parseRangeItems]
+
+/-- `bytes=<first>-` parses to the open range starting at `first`. -/
+theorem parse_range_open (d1 : Str) (h1 : IsDigits d1) :
+    parseRangeHeader (some (bytesEq ++ (d1 ++ ['-']))) =
+      some ⟨bytesUnit, [((digitsVal d1 : Int), none)]⟩ := by
+  have hnc : ∀ c ∈ d1 ++ ['-'], c ≠ ',' := by
+    intro c hc
+    rcases List.mem_append.mp hc with hc | hc
+    · exact digits_no_comma h1.2 c hc
+    · simp only [List.mem_singleton] at hc; subst hc; decide
+  rw [parseRangeHeader_bytes, splitOnChar_none _ _ _ hnc]
+  simp only [List.reverse_nil, List.nil_append]
+  rw [item_open d1 h1 0 (by omega) (by omega)]
+  simp [parseRangeItems]
+
+/-- `bytes=-<n>` parses to the suffix range of length `n` (stored as begin `-n`). -/
+theorem parse_range_suffix (d : Str) (h : IsDigits d) :
+    parseRangeHeader (some (bytesEq ++ ('-' :: d))) =
+      some ⟨bytesUnit, [(-(digitsVal d : Int), none)]⟩ := by
+  have hnc : ∀ c ∈ '-' :: d, c ≠ ',' := by
+    intro c hc
+    rcases List.mem_cons.mp hc with rfl | hc
+    · decide
+    · exact digits_no_comma h.2 c hc
+  rw [parseRangeHeader_bytes, splitOnChar_none _ _ _ hnc]
+  simp only [List.reverse_nil, List.nil_append]
+  rw [item_suffix d h 0 (by omega)]
+  simp [parseRangeItems]
+
+/-- Two well-formed ascending specs `a-b,c-d` parse to two ranges — and therefore (multi-range)
+are answered with 416 by `range_416_partial`. -/
+theorem parse_range_two (d1 d2 d3 d4 : Str) (h1 : IsDigits d1) (h2 : IsDigits d2) (h3 : IsDigits d3)
+    (h4 : IsDigits d4) (h12 : digitsVal d1 ≤ digitsVal d2) (h23 : digitsVal d2 < digitsVal d3)
+    (h34 : digitsVal d3 ≤ digitsVal d4) (l : Option Int) :
+    (parseRangeHeader (some (bytesEq ++ ((d1 ++ '-' :: d2) ++ ',' :: (d3 ++ '-' :: d4))))).bind
+      (fun pr => rangeForLength pr l) = none := by
+  have hnc1 : ∀ c ∈ d1 ++ '-' :: d2, c ≠ ',' := by
+    intro c hc
+    rcases List.mem_append.mp hc with hc | hc
+    · exact digits_no_comma h1.2 c hc
+    · rcases List.mem_cons.mp hc with rfl | hc
+      · decide
+      · exact digits_no_comma h2.2 c hc
+  have hnc2 : ∀ c ∈ d3 ++ '-' :: d4, c ≠ ',' := by
+    intro c hc
+    rcases List.mem_append.mp hc with hc | hc
+    · exact digits_no_comma h3.2 c hc
+    · rcases List.mem_cons.mp hc with rfl | hc
+      · decide
+      · exact digits_no_comma h4.2 c hc
+  rw [parseRangeHeader_bytes, splitOnChar_cons _ _ _ _ hnc1, splitOnChar_none _ _ _ hnc2]
+  simp only [List.reverse_nil, List.nil_append]
+  rw [item_first_last d1 d2 h1 h2 h12 0 (by omega) (by omega),
+    item_first_last d3 d4 h3 h4 h34 _ (by omega) (by omega)]
+  simp only [parseRangeItems, List.reverse_cons, List.reverse_nil, List.nil_append, List.cons_append,
+    Option.map_some, Option.bind_some]
+  exact multi_or_foreign_unit_unsatisfiable _ l (Or.inl (by simp))
+
+/-- A 206 lies inside what the header text asked for: for `bytes=<first>-<last>` and a resource of
+length `l` the selected range is `[first, min(last+1, l))`; for `bytes=<first>-` it is
+`[first, l)`; for `bytes=-<n>` with `n > 0` it is the last `n` bytes. -/
+theorem range_text_sound (d1 d2 : Str) (h1 : IsDigits d1) (h2 : IsDigits d2) (l a b : Int) :
+    (digitsVal d1 ≤ digitsVal d2 →
+      (parseRangeHeader (some (bytesEq ++ (d1 ++ '-' :: d2)))).bind (fun pr => rangeForLength pr (some l))
+        = some (a, b) → a = digitsVal d1 ∧ b = min ((digitsVal d2 : Int) + 1) l ∧ b ≤ l) ∧
+    ((parseRangeHeader (some (bytesEq ++ (d1 ++ ['-'])))).bind (fun pr => rangeForLength pr (some l))
+        = some (a, b) → a = digitsVal d1 ∧ b = l) ∧
+    (0 < digitsVal d1 →
+      (parseRangeHeader (some (bytesEq ++ ('-' :: d1)))).bind (fun pr => rangeForLength pr (some l))
+        = some (a, b) → a = l - digitsVal d1 ∧ b = l ∧ 0 ≤ a) := by
+  refine ⟨?_, ?_, ?_⟩
+  · intro hle h
+    rw [parse_range_first_last d1 d2 h1 h2 hle] at h
+    simp only [Option.bind_some] at h
+    obtain ⟨_, _, hbl, _, s, e, hr, hfl, _, _⟩ := rangeForLength_sound _ l a b h
+    simp only [List.cons.injEq, Prod.mk.injEq, and_true] at hr
+    obtain ⟨rfl, rfl⟩ := hr
+    obtain ⟨ha, hb⟩ := hfl _ rfl
+    exact ⟨ha, hb, hbl⟩
+  · intro h
+    rw [parse_range_open d1 h1] at h
+    simp only [Option.bind_some] at h
+    obtain ⟨_, _, _, _, s, e, hr, _, hop, _⟩ := rangeForLength_sound _ l a b h
+    simp only [List.cons.injEq, Prod.mk.injEq, and_true] at hr
+    obtain ⟨rfl, rfl⟩ := hr
+    exact hop rfl (by omega)
+  · intro hpos h
+    rw [parse_range_suffix d1 h1] at h
+    simp only [Option.bind_some] at h
+    obtain ⟨h0, _, _, _, s, e, hr, _, _, hsf⟩ := rangeForLength_sound _ l a b h
+    simp only [List.cons.injEq, Prod.mk.injEq, and_true] at hr
+    obtain ⟨rfl, rfl⟩ := hr
+    obtain ⟨ha, hb⟩ := hsf rfl (by omega)
+    exact ⟨by omega, hb, h0⟩
+
+example : IsDigits "12".toList ∧ digitsVal "12".toList = 12 := by
+  refine ⟨⟨by decide, ?_⟩, by decide⟩
+  intro c hc
+  have : c = '1' ∨ c = '2' := by simpa using hc
+  rcases this with rfl | rfl <;> decide
+
+/-- the full-strength reading of "unsatisfiable ⇒ 416" for the suffix form with length zero:
+`bytes=-0` selects nothing of a non-empty resource -/
+def SuffixZeroUnsatisfiable : Prop :=
+  ∀ l : Int, 0 < l →
+    (parseRangeHeader (some "bytes=-0".toList)).bind (fun r => rangeForLength r (some l)) = none
+
+/-- Known finding F11d: false — `parse_range_header` reads `-0` as `(0, None)`, the whole
+resource. -/
+theorem suffix_zero_full_false : ¬ SuffixZeroUnsatisfiable := by
+  intro h
+  have := h 6 (by decide)
+  revert this
+  decide
+
+/-- KEY THEOREM (`rangeWrapper_exact`, iterator path). For every chunking of the body — any number
+of chunks of any sizes, empty chunks included — and every `start`, `len`, the chunks emitted by
+`_RangeWrapper` concatenate to exactly `body[start : start + len]`, and none of them is empty. -/
+theorem rangeWrapper_exact_iter (chunks : List Bytes) (start len : Nat) :
+    (rangeWrapIter chunks start len).flatten = (chunks.flatten.drop start).take len ∧
+    AllNonEmpty (rangeWrapIter chunks start len) := by
+  unfold rangeWrapIter
+  cases hf : rwFirst start chunks 0 with
+  | none =>
+    have := rwFirst_none start chunks 0 (Nat.zero_le _) hf
+    refine ⟨?_, by intro c hc; simp at hc⟩
+    rw [List.drop_of_length_le (by omega)]
+    simp
+  | some p =>
+    obtain ⟨c, cs, rl⟩ := p
+    obtain ⟨h1, h2, h3⟩ := rwFirst_some start chunks 0 (Nat.zero_le _) c cs rl hf
+    simp only [Nat.sub_zero] at h1
+    simp only
+    rw [← h1]
+    split
+    · rename_i hge
+      have hle : len ≤ c.length := by omega
+      rw [List.take_append_of_le_length hle]
+      split
+      · rename_i he
+        have : List.take len c = [] := by simpa using he
+        refine ⟨by simp [this], by intro x hx; simp at hx⟩
+      · rename_i hne
+        refine ⟨by simp, ?_⟩
+        intro x hx
+        simp only [List.mem_singleton] at hx
+        subst hx
+        exact isEmpty_false_ne (by simpa using hne)
+    · rename_i hlt
+      have hc : c.isEmpty = false := by
+        cases c with
+        | nil => exact absurd rfl h3
+        | cons _ _ => rfl
+      simp only [hc, Bool.false_eq_true, ↓reduceIte]
+      refine ⟨?_, ?_⟩
+      · rw [List.flatten_append, rwRest_flatten _ _ _ (by omega), List.take_append,
+          List.take_of_length_le (by omega : c.length ≤ len)]
+        have : start + len - rl = len - c.length := by omega
+        simp [this]
+      · intro x hx
+        rcases List.mem_append.mp hx with hx | hx
+        · simp only [List.mem_singleton] at hx
+          subst hx; exact h3
+        · exact rwRest_nonEmpty _ _ _ x hx
+
+example : rangeWrapIter [[1, 2, 3], [], [4, 5, 6]] 0 6 = [[1, 2, 3], [4, 5, 6]] ∧
+    rangeWrapIter [[], [1], [], [2, 3, 4], [5]] 1 3 = [[2, 3, 4]] := by decide
+
+/-- KEY THEOREM (`rangeWrapper_exact`, seekable path). For a seekable file of content `data` read
+through a `FileWrapper` with any block size `b ≥ 1`, the emitted chunks concatenate to exactly
+`data[start : start + len]` and none is empty. -/
+theorem rangeWrapper_exact_seek (data : Bytes) (b : Nat) (hb : 0 < b) (start len : Nat) :
+    (rangeWrapSeek data b start len).flatten = (data.drop start).take len ∧
+    AllNonEmpty (rangeWrapSeek data b start len) := by
+  unfold rangeWrapSeek
+  refine ⟨?_, rwRest_nonEmpty _ _ _⟩
+  rw [rwRest_flatten _ _ _ (by omega),
+    blocks_flatten b hb _ _ (by rw [List.length_drop]; omega)]
+  congr 1
+  omega
+
+example : rangeWrapSeek [1, 2, 3, 4, 5, 6, 7] 2 1 4 = [[2, 3], [4, 5]] := by decide
+
+/-- Both paths deliver the same bytes. -/
+theorem rangeWrapper_paths_agree (chunks : List Bytes) (b : Nat) (hb : 0 < b) (start len : Nat) :
+    (rangeWrapIter chunks start len).flatten = (rangeWrapSeek chunks.flatten b start len).flatten := by
+  rw [(rangeWrapper_exact_iter chunks start len).1, (rangeWrapper_exact_seek chunks.flatten b hb start len).1]
+
+/-! ## the whole response -/
+
+/-- `range_response`, the 206 case: a 206 comes with `Content-Range: bytes a-(b-1)/length`,
+`Content-Length: b-a`, `0 ≤ a < b ≤ length`, and (for GET, whatever the chunking and whether or
+not the body is a seekable file) a body that is exactly bytes `[a, b)` of the full body. -/
+theorem range_response_206 (method : Str) (q : CondReq) (r : RespIn) (l : Int) (ar : Bool)
+    (chunks : List Bytes) (seek : Option Nat) (kind : Nat) (o : WsgiOut)
+    (hseek : ∀ bs, seek = some bs → 0 < bs)
+    (h : respond method q r (some l) ar chunks seek kind = some o) (hs : o.status = 206) :
+    ∃ a b : Int, 0 ≤ a ∧ a < b ∧ b ≤ l ∧
+      o.contentRange = some (a, b - 1, l) ∧ o.contentLength = some (b - a) ∧
+      (method ≠ "HEAD".toList →
+        o.body.flatten = (chunks.flatten.drop a.toNat).take (b - a).toNat) ∧
+      (method = "HEAD".toList → o.body = []) := by
+  have e2 : "HEAD".toList = ['H', 'E', 'A', 'D'] := by decide
+  rw [e2]
+  unfold respond at h
+  simp only at h
+  cases hmc : makeConditionalStatus method q r (some l) ar with
+  | none => rw [hmc] at h; cases h
+  | some p =>
+    obtain ⟨st, oc⟩ := p
+    rw [hmc] at h
+    -- which statuses can makeConditionalStatus produce together with which outcome?
+    have hshape : (st = 206 ∧ ∃ a b, oc = .partialContent a b ∧
+        processRangeRequest q r (some l) ar = .partialContent a b) ∨ (st ≠ 206 ∧ oc = .notRange) := by
+      unfold makeConditionalStatus at hmc
+      split at hmc
+      · cases hp : processRangeRequest q r (some l) ar with
+        | unsatisfiable => rw [hp] at hmc; cases hmc
+        | partialContent a b =>
+          rw [hp] at hmc
+          simp only [Option.some.injEq, Prod.mk.injEq] at hmc
+          exact Or.inl ⟨hmc.1.symm, a, b, hmc.2.symm, rfl⟩
+        | notRange =>
+          rw [hp] at hmc
+          simp only at hmc
+          split at hmc
+          · simp only [Option.some.injEq, Prod.mk.injEq] at hmc
+            refine Or.inr ⟨?_, hmc.2.symm⟩
+            rw [← hmc.1]; split <;> decide
+          · simp only [Option.some.injEq, Prod.mk.injEq] at hmc
+            exact Or.inr ⟨by rw [← hmc.1]; decide, hmc.2.symm⟩
+      · simp only [Option.some.injEq, Prod.mk.injEq] at hmc
+        exact Or.inr ⟨by rw [← hmc.1]; decide, hmc.2.symm⟩
+    rcases hshape with ⟨rfl, a, b, rfl, hp⟩ | ⟨hne, rfl⟩
+    · simp only [Option.some.injEq] at h
+      -- the range comes from rangeForLength
+      have hr : ∃ pr, rangeForLength pr (some l) = some (a, b) := by
+        unfold processRangeRequest at hp
+        simp only at hp
+        split at hp
+        · cases hp
+        · split at hp
+          · cases hp
+          · rename_i pr _
+            split at hp
+            · cases hp
+            · rename_i a' b' hrf
+              simp only [RangeOutcome.partialContent.injEq] at hp
+              exact ⟨pr, by rw [hrf, hp.1, hp.2]⟩
+      obtain ⟨pr, hrf⟩ := hr
+      obtain ⟨h0, hab, hbl, _, _⟩ := rangeForLength_sound pr l a b hrf
+      subst h
+      refine ⟨a, b, h0, hab, hbl, by simp, rfl, ?_, ?_⟩
+      · intro hm
+        have hm' : (method == ['H', 'E', 'A', 'D']) = false := by simpa using hm
+        simp only [hm', Bool.false_eq_true, ↓reduceIte]
+        cases seek with
+        | none => exact (rangeWrapper_exact_iter chunks a.toNat (b - a).toNat).1
+        | some bs => exact (rangeWrapper_exact_seek chunks.flatten bs (hseek bs rfl) a.toNat (b - a).toNat).1
+      · intro hm
+        simp [hm]
+    · exfalso
+      -- a non-206 status from makeConditionalStatus never yields o.status = 206
+      simp only at h
+      split at h
+      · simp only [Option.some.injEq] at h
+        subst h
+        simp at hs
+      · simp only [Option.some.injEq] at h
+        subst h
+        exact hne hs
+
+example : (respond "GET".toList { range := some "bytes=2-4".toList } {} (some 6) true
+    [[65, 66, 67], [], [68, 69, 70]] none 0).map (·.body) = some [[67], [68, 69]] := by decide
+
+/-- the full-strength reading of "unparsable, unsatisfiable and multi-range requests yield 416"
+(for GET with ranges accepted and a known length) -/
+def Range416Full : Prop :=
+  ∀ (q : CondReq) (r : RespIn) (l : Int), 0 ≤ l → q.ifRange = none → q.range.isSome = true →
+    (parseRangeHeader q.range).bind (fun pr => rangeForLength pr (some l)) = none →
+    makeConditionalStatus "GET".toList q r (some l) true = none
+
+/-- Known finding F11f: false for the empty resource — range handling is skipped when the length
+is 0 and the request is answered with the (empty) complete body. -/
+theorem range_416_full_false : ¬ Range416Full := by
+  intro h
+  have := h { range := some "bytes=0-1".toList } {} 0 (by decide) rfl rfl (by decide)
+  revert this
+  decide
+
+/-- `_partial` (`range_response`, the 416 case): for GET/HEAD, ranges accepted, a known non-zero
+length and a processable range request (no `If-Range`, or one that validates), a `Range` header that
+cannot be parsed, names another unit, lists several ranges or is not satisfiable for the length
+yields 416. Excluded: length 0 (F11f). -/
+theorem range_416_partial (method : Str) (q : CondReq) (r : RespIn) (l : Int) (hl : l ≠ 0)
+    (hm : method = "GET".toList ∨ method = "HEAD".toList)
+    (hproc : rangeProcessable q r = true)
+    (hbad : (parseRangeHeader q.range).bind (fun pr => rangeForLength pr (some l)) = none) :
+    makeConditionalStatus method q r (some l) true = none := by
+  have hm' : (method == ['G', 'E', 'T'] || method == ['H', 'E', 'A', 'D']) = true := by
+    rcases hm with rfl | rfl <;> decide
+  have hp : processRangeRequest q r (some l) true = .unsatisfiable := by
+    unfold processRangeRequest
+    have : (l == 0) = false := by simpa using hl
+    simp only [Bool.not_true, Bool.false_or, this, hproc, Bool.false_eq_true, ↓reduceIte]
+    cases hpr : parseRangeHeader q.range with
+    | none => rfl
+    | some pr =>
+      rw [hpr] at hbad
+      simp only [Option.bind_some] at hbad
+      simp [hbad]
+  simp [makeConditionalStatus, hm', hp]
+
+example : rangeProcessable { range := some "bytes=0-0,2-3".toList } {} = true ∧
+    (parseRangeHeader (some "bytes=0-0,2-3".toList)).bind (fun pr => rangeForLength pr (some 6)) = none := by
+  decide
+
+/-- `range_response`, the ignored case: when the request is not treated as a range request (other
+method; no `Range`; ranges not accepted; failed `If-Range`) and the resource counts as modified,
+the answer is the complete body with status 200. -/
+theorem ignored_range_full_body (method : Str) (q : CondReq) (r : RespIn) (cl : Option Int)
+    (ar : Bool) (chunks : List Bytes) (seek : Option Nat) (kind : Nat)
+    (h : makeConditionalStatus method q r cl ar = some (200, .notRange)) :
+    ∃ o, respond method q r cl ar chunks seek kind = some o ∧ o.status = 200 ∧
+      o.contentRange = none ∧
+      (method ≠ "HEAD".toList → o.body.flatten = chunks.flatten) := by
+  have e2 : "HEAD".toList = ['H', 'E', 'A', 'D'] := by decide
+  rw [e2]
+  unfold respond
+  simp only [h]
+  refine ⟨_, rfl, rfl, rfl, ?_⟩
+  intro hm
+  have hm' : (method == ['H', 'E', 'A', 'D']) = false := by simpa using hm
+  simp only [hm', Bool.false_eq_true, ↓reduceIte]
+  induction chunks with
+  | nil => rfl
+  | cons c cs ih =>
+    simp only [List.filter_cons, List.flatten_cons]
+    cases hc : c.isEmpty with
+    | true =>
+      have : c = [] := by simpa using hc
+      simp [this, ih]
+    | false => simp [ih]
+
+/-- a failed `If-Range` (the validator does not match: the resource counts as modified) switches
+range handling off -/
+theorem failed_if_range_not_range (q : CondReq) (r : RespIn) (cl : Option Int) (ar : Bool)
+    (hir : q.ifRange.isSome = true) (hmod : isResourceModified q r.etag (lmOf r) false = true) :
+    processRangeRequest q r cl ar = .notRange := by
+  unfold processRangeRequest
+  cases cl with
+  | none => rfl
+  | some l =>
+    have : rangeProcessable q r = false := by
+      unfold rangeProcessable
+      cases hq : q.ifRange with
+      | none => rw [hq] at hir; cases hir
+      | some v => simp [hmod]
+    simp [this]
+
+example : isResourceModified { range := some "bytes=0-1".toList, ifRange := some "\"old\"".toList }
+    (some "\"abc\"".toList) none false = true := by decide
+
 end Wz.Props.C11
